@@ -16,21 +16,23 @@ from vlib.core import Undecided, log
 from vlib.tlaparse import to_json
 
 HARNESS = ["zz_verif_c13_test.go", "zz_verif_c13_chain_test.go"]
-COMMIT_KINDS = ["quorumOnly", "noQuorum", "badEarly", "padBad", "padNil", "padAddr", "addrEarly", "shortSet"]
+COMMIT_KINDS = ["quorumOnly", "noQuorum", "badEarly", "padBad", "padNil", "padAddr", "addrEarly", "shortSet", "nilAddr"]
 LIE_KINDS = ["W", "WC", "commitH"] + COMMIT_KINDS + ["heightUp", "heightDown"]
 WEAK = {  # switch -> the invariant TLC must refute with it (checked alone: deterministic, shortest counterexample)
     "NoCommitVerify": ["OnlyCanonical"],
     "SaveBeforeValidate": ["OnlyCanonical"],
     "NoRedo": ["LiarsDropped"],
     "SeenCommitUnchecked": ["CleanHandover"],
+    "NilSlotAddressUnchecked": ["CleanHandover"],   # a genuine nil precommit re-labelled with another validator's address
     # ValidateBlock(first) and the part-set-header comparison each catch a block whose LastCommit differs only in
     # fields Commit.Hash() does not cover (commit height / BlockID); the property breaks only when BOTH are gone
     "NoValidateNoPartSet": ["OnlyCanonical"],
 }
 WEAK_LIVE = {"StaleMaxPeerHeight": "Temporal"}   # thorough tier: LiveSpec with the switch violates ReachesTip
-VALS_A = {"powers": [2, 1, 1], "addAt": 1, "addPow": 1}   # = MC_ValsAt: {2,1,1} then {2,1,1,1} from height 3
-VALS_C = {"powers": [3, 2, 1], "addAt": 0, "addPow": 0}   # total = 0 mod 3
-VALS_B = {"powers": [1, 1, 1], "addAt": 0, "addPow": 0}   # no room behind the quorum: pad kinds degenerate
+# nilAt: heights at which the last validator genuinely precommits nil (the canonical commit has an "N" slot)
+VALS_A = {"powers": [2, 1, 1], "addAt": 1, "addPow": 1, "nilAt": [2, 4]}   # MC_ValsAt: {2,1,1} then {2,1,1,1} from height 3
+VALS_C = {"powers": [3, 2, 1], "addAt": 0, "addPow": 0, "nilAt": [2, 3]}   # total = 0 mod 3
+VALS_B = {"powers": [1, 1, 1], "addAt": 0, "addPow": 0, "nilAt": []}       # no room behind the quorum: pad kinds degenerate
 TMAX = 6
 P2 = [{"p": "h1", "honest": True}, {"p": "l1", "honest": False}]
 P3 = P2 + [{"p": "l2", "honest": False}]
@@ -61,7 +63,7 @@ def sched_late(T):
     requesters reset, the genuine h is forgotten), a second liar is the only peer for h and answers with
     the lie, then the honest peer brings h+1."""
     out = []
-    for kind in ["WC", "commitH", "W", "padBad", "addrEarly", "H"]:
+    for kind in ["WC", "commitH", "W", "padBad", "addrEarly", "nilAddr", "H"]:
         for h in range(2, T):
             steps = [{"a": "Join", "p": "l1"}, {"a": "Status", "p": "l1", "base": 1, "height": h + 1}]
             steps += [{"a": "Response", "p": "l1", "h": k, "kind": "H"} for k in range(1, h + 1)]
